@@ -77,6 +77,7 @@ def parseOp (ws : List String) : Option (Op × T × Nat) :=
   | "rotate" :: m :: rest => one rest fun _ => do some (.rotate (← m.toNat?))
   | "shuffle" :: rs :: rest => one rest fun _ => do some (.shuffleTaxa (← pList rs))
   | "reorient" :: k :: m :: rest => one rest fun _ => do some (.reorient (← k.toNat?) (← m.toNat?))
+  | "setseed" :: n :: rest => one rest fun _ => do some (.setSeed (← n.toNat?))
   | "encode" :: s :: c :: rest => one rest fun _ => do some (.encode (← pBool s) (← pBool c))
   | _ => none
 
